@@ -1208,3 +1208,192 @@ Proof.
   assert (R : recoverable (run (init c) ls) e) by (eapply lockstep_no_loss; eassumption).
   split; apply recoverable_read_once; assumption.
 Qed.
+
+(** ** the WAL thread is never behind the flush worker: nothing reaches the ghost list *)
+
+(** at every log-file deletion the WAL thread is idle (queue drained, no rotation due) *)
+Fixpoint wal_idle_at_prune (s : shard) (ls : list label) : bool :=
+  match ls with
+  | [] => true
+  | l :: r =>
+      (match l with
+       | LFw (FwWalDel _) | LFw FwWalClean => is_empty (walq s) && (wcnt s <? cap s)
+       | _ => true
+       end) && wal_idle_at_prune (step s l) r
+  end.
+
+Definition prune_ok (s : shard) (l : label) : bool :=
+  match l with
+  | LFw (FwWalDel _) | LFw FwWalClean => is_empty (walq s) && (wcnt s <? cap s)
+  | _ => true
+  end.
+
+Lemma wal_idle_snoc : forall ls s l,
+  wal_idle_at_prune s (ls ++ [l]) = wal_idle_at_prune s ls && prune_ok (run s ls) l.
+Proof.
+  induction ls as [|x r IH]; intros s l; cbn [app wal_idle_at_prune].
+  - rewrite andb_true_r. reflexivity.
+  - rewrite IH, andb_assoc. reflexivity.
+Qed.
+
+Lemma fw_unlinked : forall s l, wunlinked (fw_step s l) = true ->
+  wunlinked s = true \/
+  exists j rest, jobs s = j :: rest /\ jstage j = StCleared /\ wcur s < jseg j + 1 /\
+                 prune_ok s (LFw l) = is_empty (walq s) && (wcnt s <? cap s).
+Proof.
+  intros s l; unfold fw_step, set_jobs. destruct (jobs s) as [|j rest] eqn:Ej; [tauto|].
+  destruct l, (jstage j) eqn:Est; repeat match goal with |- context [if ?b then _ else _] => destruct b eqn:? end;
+    proj; try tauto; intros H; apply orb_true_iff in H; destruct H as [H|H]; try tauto; right; exists j, rest.
+  - apply N.eqb_eq in H. apply orb_false_iff in Heqb. destruct Heqb as [_ Hb].
+    apply negb_false_iff, N.ltb_lt in Hb. repeat split; try reflexivity; try exact Est. lia.
+  - apply andb_true_iff in H. destruct H as [H _]. apply N.ltb_lt in H. repeat split; try reflexivity; try exact Est. lia.
+Qed.
+
+Lemma pruned_nil : forall ds del,
+  (forall e, In e (pruned_unsaved ds del) -> In e (drows ds)) -> pruned_unsaved ds del = [].
+Proof.
+  intros ds del H. destruct (pruned_unsaved ds del) as [|e r] eqn:E; [reflexivity|].
+  assert (Hin : In e (pruned_unsaved ds del)) by (rewrite E; left; reflexivity).
+  pose proof (H e (or_introl eq_refl)) as Hd. apply pruned_unsaved_In in Hin. tauto.
+Qed.
+
+Lemma idle_step : forall c P D s l, 0 < c ->
+  lock_inv c P D s -> lockstep_label l = true -> (l = LWalWrite -> wcnt s < c) ->
+  prune_ok s l = true -> wunlinked s = false -> wlost s = [] ->
+  wunlinked (step s l) = false /\ wlost (step s l) = [].
+Proof.
+  intros c P D s l Hc HI Hl Hw Hp Hu Hlost.
+  pose proof (lock_step c P D s l Hc HI Hl Hw) as HI'.
+  destruct l as [e0| | | |f| |]; try discriminate Hl; cbn [step] in *.
+  - destruct (store_frame s e0) as (_ & _ & _ & _ & -> & _ & _ & -> & _). tauto.
+  - destruct (walq s) as [|e q] eqn:Eq; [rewrite (wal_write_nil s Eq); tauto|].
+    destruct (wal_write_frame s) as (_ & _ & _ & _ & _ & _ & _ & _ & ->).
+    destruct (wal_write_cons s e q Eq) as [_ [(Hu' & _)|(_ & _ & ->)]]; [congruence|tauto].
+  - destruct (wal_rotate_frame s) as (_ & _ & _ & -> & _). split; [|exact Hlost].
+    unfold wal_rotate. destruct (_ <=? _); proj; [reflexivity|exact Hu].
+  - split.
+    + apply not_true_is_false. intros T. destruct (fw_unlinked s f T) as [H|[j [rest [Ej [Est [Hlt Hpk]]]]]]; [congruence|].
+      rewrite Hpk in Hp. apply andb_true_iff in Hp. destruct Hp as [Hq Hn]. apply N.ltb_lt in Hn.
+      destruct (walq s) as [|x q] eqn:Eq; [|discriminate Hq].
+      destruct HI as [Icap Ififo Icnt _ _ Imem _ Ijobs _ _ _ _ _ _].
+      rewrite Ej in Ijobs. cbn [hseg jobs_from] in Ijobs. destruct Ijobs as (_ & _ & _ & Hr).
+      apply jobs_from_le in Hr. rewrite Eq, app_nil_r in Ififo. subst P. rewrite Icap in Hn.
+      assert (Hle : wcur s + 1 <= alloc0 s) by lia. pose proof (mul_le _ _ c Hle). lia.
+    + destruct (fw_files s f) as [[_ ->]|[p [_ [E Ed]]]]; [exact Hlost|].
+      rewrite E, Hlost. cbn [app]. apply pruned_nil. intros e He. rewrite <- Ed.
+      apply (li_lost _ _ _ _ HI'). rewrite E, Hlost. exact He.
+Qed.
+
+Theorem lockstep_wlost_empty : forall c ls, 0 < c ->
+  lockstep ls = true -> wal_ordered (init c) ls = true -> wal_idle_at_prune (init c) ls = true ->
+  wunlinked (run (init c) ls) = false /\ wlost (run (init c) ls) = [].
+Proof.
+  intros c ls Hc; induction ls as [|l ls IH] using rev_ind; intros Hl Ho Hp; [split; reflexivity|].
+  pose proof Hl as Hl0. pose proof Ho as Ho0.
+  unfold lockstep in Hl. rewrite forallb_app in Hl. apply andb_true_iff in Hl. destruct Hl as [Hl1 Hl2].
+  cbn [forallb] in Hl2. rewrite andb_true_r in Hl2.
+  rewrite wal_ordered_snoc in Ho. apply andb_true_iff in Ho. destruct Ho as [Ho1 Ho2].
+  rewrite wal_idle_snoc in Hp. apply andb_true_iff in Hp. destruct Hp as [Hp1 Hp2].
+  destruct (IH Hl1 Ho1 Hp1) as [IHu IHl]. pose proof (lock_run c ls Hc Hl1 Ho1) as HI.
+  rewrite run_snoc. eapply idle_step; try eassumption.
+  intros ->. apply N.ltb_lt in Ho2. rewrite (li_cap _ _ _ _ HI) in Ho2. exact Ho2.
+Qed.
+
+(** * COUNT after recovery *)
+
+Lemma dedup_len : forall l seen, len (dedup_ev l seen) <= len l.
+Proof.
+  induction l as [|x r IH]; intros seen; cbn [dedup_ev]; [lia|].
+  destruct (memb (ek x) seen); rewrite ?len_cons.
+  - specialize (IH seen). lia.
+  - specialize (IH (ek x :: seen)). lia.
+Qed.
+
+Lemma of_uid_app : forall u a b, of_uid u (a ++ b) = of_uid u a ++ of_uid u b.
+Proof. intros; unfold of_uid; apply filter_app. Qed.
+
+Lemma of_uid_len : forall u l, len (of_uid u l) <= len l.
+Proof.
+  induction l as [|x r IH]; cbn [of_uid filter]; [lia|]. fold (of_uid u r).
+  destruct (euid x =? u); rewrite ?len_cons; lia.
+Qed.
+
+(** COUNT never reports fewer rows than a selection returns ... *)
+Theorem count_ge_select : forall s u, len (select s u) <= count s u.
+Proof.
+  intros s u. unfold select, count, scan. pose proof (dedup_len (of_uid u (mem_rows s ++ seg_rows s)) []) as H.
+  rewrite of_uid_app in *. rewrite len_app in H. pose proof (of_uid_len u (mem_rows s)). lia.
+Qed.
+
+(** ... and this is what it reports after a restart: every line of every log file,
+    whatever its event type, plus the rows of the queried type of every directory *)
+Theorem count_after_restart : forall s u,
+  count (restart (crash s)) u = len (frows (walfiles s)) + len (of_uid u (drows (dirs s))) /\
+  count (restart s) u = len (frows (walfiles s)) + len (of_uid u (drows (dirs s))).
+Proof.
+  intros s u. assert (G : forall t, count (restart t) u = len (frows (walfiles t)) + len (of_uid u (drows (dirs t)))).
+  { intros t. unfold count, mem_rows, seg_rows, scanned_dirs, restart; proj. cbn [map concat].
+    rewrite app_nil_r, filter_all; [reflexivity|].
+    intros d Hd. apply orb_true_iff; left. apply memb_In, sort_n_In, in_map, Hd. }
+  split; [rewrite G; reflexivity|apply G].
+Qed.
+
+Lemma nodup_app_l : forall A (a b : list A), NoDup (a ++ b) -> NoDup a.
+Proof.
+  induction a as [|x r IH]; intros b H; [constructor|]. cbn [app] in H.
+  inversion H as [|y l Hy Hl]; subst. constructor; [|eapply IH; eassumption].
+  intros T; apply Hy, in_app_iff; left; exact T.
+Qed.
+
+Lemma nodup_snoc : forall A (l : list A) x, NoDup l -> ~ In x l -> NoDup (l ++ [x]).
+Proof.
+  induction l as [|y r IH]; intros x Hn Hx; cbn [app]; [constructor; [intros []|constructor]|].
+  inversion Hn as [|z l Hz Hl]; subst. constructor.
+  - intros T. apply in_app_iff in T. destruct T as [T|[T|[]]]; [contradiction|]. apply Hx; left; symmetry; exact T.
+  - apply IH; [exact Hl|]. intros T; apply Hx; right; exact T.
+Qed.
+
+(** the durable events are pairwise distinct when the stored ones are *)
+Lemma durable_pending_nodup : forall ls,
+  NoDup (stored ls) -> NoDup (durable ls ++ pending ls) /\ incl (durable ls ++ pending ls) (stored ls).
+Proof.
+  induction ls as [|l ls IH] using rev_ind; intros Hn; [split; [constructor|intros x []]|].
+  rewrite stored_snoc in Hn. rewrite stored_snoc, durable_snoc, pending_snoc.
+  assert (Hn0 : NoDup (stored ls)) by (apply nodup_app_l in Hn; exact Hn).
+  destruct (IH Hn0) as [IH1 IH2].
+  assert (Hsame : NoDup (durable ls ++ pending ls) /\ incl (durable ls ++ pending ls) (stored ls ++ stored_by l)).
+  { split; [exact IH1|]. intros x Hx; apply in_app_iff; left; apply IH2, Hx. }
+  assert (Hdrop : NoDup (durable ls ++ []) /\ incl (durable ls ++ []) (stored ls ++ stored_by l)).
+  { rewrite app_nil_r. split; [apply nodup_app_l in IH1; exact IH1|].
+    intros x Hx; apply in_app_iff; left; apply IH2, in_app_iff; left; exact Hx. }
+  destruct l as [e0| | | |f| |]; cbn [written_by pend_step stored_by]; rewrite ?app_nil_r in *; try assumption.
+  - rewrite app_assoc. split.
+    + apply nodup_snoc; [exact IH1|]. intros T. apply IH2 in T.
+      apply NoDup_remove_2 in Hn. apply Hn. rewrite app_nil_r. exact T.
+    + intros x Hx. apply in_app_iff in Hx. apply in_app_iff. destruct Hx as [Hx|Hx]; [left; apply IH2, Hx|right; exact Hx].
+  - destruct (pending ls) as [|e q]; cbn [written_by tl]; rewrite ?app_nil_r in *; [split; assumption|].
+    rewrite <- app_assoc. cbn [app]. split; assumption.
+Qed.
+
+Lemma durable_nodup : forall ls, NoDup (map ek (stored ls)) -> NoDup (durable ls).
+Proof.
+  intros ls Hn. apply NoDup_map_inv in Hn. destruct (durable_pending_nodup ls Hn) as [H _].
+  apply nodup_app_l in H. exact H.
+Qed.
+
+(** when nothing durable was pruned, COUNT covers at least the durable events of the type *)
+Theorem count_covers_durable : forall c ls u,
+  NoDup (map ek (stored ls)) ->
+  (forall e, In e (durable ls) -> ~ In e (wlost (run (init c) ls))) ->
+  len (of_uid u (durable ls)) <= len (select (restart (crash (run (init c) ls))) u) /\
+  len (select (restart (crash (run (init c) ls))) u) <= count (restart (crash (run (init c) ls))) u.
+Proof.
+  intros c ls u Hn Hl. split; [|apply count_ge_select].
+  assert (Hle : (length (of_uid u (durable ls)) <= length (select (restart (crash (run (init c) ls))) u))%nat).
+  { apply NoDup_incl_length.
+    - unfold of_uid. apply NoDup_filter, durable_nodup, Hn.
+    - intros e He. apply of_uid_In in He. destruct He as [He <-].
+      destruct (survives_unless_pruned c ls e Hn He (Hl e He)) as [H _].
+      unfold occ in H. apply (count_occ_In ev_eq_dec). lia. }
+  unfold len. lia.
+Qed.
